@@ -210,6 +210,56 @@ def hard_b(r):
     return None
 
 
+def minimise_b(farm, prog, params, sinks, access_log, still_fails, budget=60):
+    """Shrinks the schedule of a failing execution: calm parameters first, then the shortest tape prefix, then zeroed
+    blocks. Every candidate is a fresh execution; still_fails(result) decides."""
+    import copy
+    n = [0]
+
+    def ok(p):
+        if n[0] >= budget:
+            return False
+        n[0] += 1
+        try:
+            return bool(still_fails(farm.run(prog["name"], p, sinks, access_log)))
+        except Exception:  # noqa
+            return False
+    cur = copy.deepcopy(sysa.strip(params))
+    if not ok(cur):
+        return cur, False
+    for k in ("prio_salt", "starve_len"):
+        if cur.get(k):
+            c = dict(cur)
+            c[k] = 0
+            if ok(c):
+                cur = c
+    tape = trim_tape(cur.get("tape", []))
+    c = dict(cur, tape=[])
+    if ok(c):
+        tape = []
+    else:
+        lo, hi = 0, len(tape)
+        while lo + 1 < hi and n[0] < budget:
+            mid = (lo + hi) // 2
+            if ok(dict(cur, tape=tape[:mid])):
+                hi = mid
+            else:
+                lo = mid
+        tape = tape[:hi]
+        size = max(1, len(tape) // 2)
+        while size >= 1 and n[0] < budget:
+            i = 0
+            while i < len(tape) and n[0] < budget:
+                if any(tape[i:i + size]):
+                    t2 = tape[:i] + [0] * len(tape[i:i + size]) + tape[i + size:]
+                    if ok(dict(cur, tape=t2)):
+                        tape = t2
+                i += size
+            size //= 2
+    cur["tape"] = trim_tape(tape)
+    return cur, True
+
+
 def replay_b(prop, prog, params, signature, extra=None):
     pl = {"property": prop, "harness": "cexec", "signature": signature, "program": prog["name"],
           "clean": prog["clean"], "exec": prog["exec"], "meta": prog["meta"], "params": sysa.strip(params)}
@@ -293,6 +343,9 @@ def check_c13(tier, seed):
             if s["nflows"] + s["nesc"] == 0:
                 sig = "flow observed while the tool reports nothing (exit status success)"
             full = feature_signature(progs[pi], sig)
+            if rep.match_known(full) is None and not any(sg == full for sg, _ in rep.violations):
+                params, repro = minimise_b(farm, progs[pi], params, True, True,
+                                           lambda rr, ss=s: not hard_b(rr) and bool(c13_violations(ss, rr)))
             rep.violation(full, replay_b("C13", progs[pi], params, full, {"missed_pairs": bad}), "%s" % progs[pi]["name"])
         cov = st.coverage({"programs": nprog, "programs_with_static_verdict": len(usable), "schedules_per_program": nsched,
                            "observed_pairs_total": observed_pairs, "buckets": dict(buckets),
@@ -402,7 +455,11 @@ def check_c14(tier, seed):
                 stmt = progs[pi]["clean"].split("\n")[ln - 1].strip()
                 shape = re.sub(r"\d+", "N", stmt)
                 sig = "%s: `%s`" % (what, shape)
-                rep.violation(sig, replay_b("C14", progs[pi], params, sig, {"line": ln, "statement": stmt}), progs[pi]["name"])
+                mp = params
+                if rep.match_known(sig) is None and not any(sg == sig for sg, _ in rep.violations):
+                    mp, repro = minimise_b(farm, progs[pi], params, False, True,
+                                           lambda rr, ss=static[pi], l=ln: not hard_b(rr) and any(x == l for _, x in c14_violations(ss, rr)))
+                rep.violation(sig, replay_b("C14", progs[pi], mp, sig, {"line": ln, "statement": stmt}), progs[pi]["name"])
         cov = st.coverage({"programs": nprog, "programs_with_static_verdict": len(usable), "schedules_per_program": nsched,
                            "lines_claimed_local": local_lines, "logged_accesses_at_lines_claimed_local": local_accesses,
                            "race_reports_seen": races, "buckets": dict(buckets),
@@ -513,7 +570,11 @@ def check_c19(tier, seed):
             forms_killed[(w["form"], w["defer"])] += 1
             if not reported(static[pi], w["entry"], w["go_line"]):
                 sig = "goroutine killed by an unrecovered panic is not in the may-panic report: go form %s, defer form %s" % (w["form"], w["defer"])
-                rep.violation(sig, replay_b("C19", progs[pi], params, sig, {"worker": w}), progs[pi]["name"])
+                mp = params
+                if rep.match_known(sig) is None and not any(sg == sig for sg, _ in rep.violations):
+                    mp, repro = minimise_b(farm, progs[pi], params, False, False,
+                                           lambda rr, gl=w["go_line"]: not hard_b(rr) and any(p["create_site"] == gl for p in (rr.get("sim") or {}).get("panics") or []))
+                rep.violation(sig, replay_b("C19", progs[pi], mp, sig, {"worker": w}), progs[pi]["name"])
         cov = st.coverage({"programs": nprog, "programs_with_static_verdict": len(usable), "schedules_per_fault_point": nsched,
                            "buckets": dict(buckets),
                            "go_form_x_defer_form_killed_by_panic": {"%s/%s" % k: v for k, v in sorted(forms_killed.items())},
